@@ -1167,7 +1167,10 @@ def replay(d):
     if not ok:
         print("build failed:", err[-300:])
         return 2
-    if tag == "shutdown-cycle":
+    if tag in ("settings-cycle", "settings-error-cycle"):
+        import e2e_e2esettings          # C17 at the started collector (imports this module)
+        res = e2e_e2esettings.replay_cycle(tag, n, seed, binary)
+    elif tag == "shutdown-cycle":
         res = cycle(n, seed, binary, sample.get("pattern"))
     elif tag == "stalled-stop":
         res = stall_cycle(n, seed, binary)
